@@ -41,7 +41,7 @@ func c06Twin(b, x *gen.Spec) bool {
 	bc := b.Clone()
 	bc.Badfilter = false
 
-	return bc.Render(nil) == x.Render(nil)
+	return bc.CanonKey() == x.CanonKey()
 }
 
 // c06Effective removes badfilter rules, their twins and rewrite rules.
